@@ -55,8 +55,13 @@ def is_res(v):
     return isinstance(v, Agg) and v.path == "std::result::Result"
 
 
+_DEPTH = []
+
+
 def _depth(it):
-    return getattr(it, "_cur_depth", 0)
+    """Inlining depth of the call that entered the std model (nested applications must not inherit the depth their
+    predecessors left behind)."""
+    return _DEPTH[-1] if _DEPTH else getattr(it, "_cur_depth", 0)
 
 
 def _bools(it, v, st):
@@ -70,6 +75,7 @@ def _bools(it, v, st):
 
 
 def _apply(it, clos, args, st):
+    it._cur_depth = _depth(it)
     r = it.apply_closure(clos, args, st, _depth(it))
     if r is None:
         # an fn item of the crate or an unknown callable
@@ -327,6 +333,14 @@ def _seq_family(name):
 
 def call(it, name, args, st):
     """Returns None (not modelled here) or a list of ('ret'|'panic', value, store)."""
+    _DEPTH.append(getattr(it, "_cur_depth", 0))
+    try:
+        return _call(it, name, args, st)
+    finally:
+        _DEPTH.pop()
+
+
+def _call(it, name, args, st):
     m = _method(name)
     vals = [it.read_ref(st, a) for a in args]
     a0 = vals[0] if vals else None
